@@ -21,9 +21,14 @@ import (
 	"verif/vm"
 )
 
-func installCipher(conn *mcnet.Conn, secret []byte) {
+// installCipher enables encryption on conn. oneBlock: both streams are built on ONE cipher.Block, as bot/login.go and
+// server/auth/auth.go do; otherwise each stream has a block of its own.
+func installCipher(conn *mcnet.Conn, secret []byte, oneBlock bool) {
 	b1, _ := aes.NewCipher(secret)
-	b2, _ := aes.NewCipher(secret)
+	b2 := b1
+	if !oneBlock {
+		b2, _ = aes.NewCipher(secret)
+	}
 	conn.SetCipher(CFB8.NewCFB8Encrypt(b1, secret), CFB8.NewCFB8Decrypt(b2, secret))
 }
 
@@ -34,6 +39,7 @@ func checkConnStaged(c *vm.Ctx, r *vm.Rand) {
 	secret := ivSlice(c, r)
 	threshold := []int{0, 64, 256, 1}[r.Intn(4)]
 	cipherFirst := r.Intn(4) != 0 // the protocol's order three times out of four
+	oneBlock := r.Bool()
 	k := [3]int{r.Range(0, 4), r.Range(0, 4), r.Range(1, 20)}
 	n := k[0] + k[1] + k[2]
 	pkts, sizes, ids := genPkts(r, threshold, n, r.Intn(8) == 0)
@@ -49,11 +55,11 @@ func checkConnStaged(c *vm.Ctx, r *vm.Rand) {
 		plan = []int{1}
 	}
 	wit := func() any {
-		return map[string]any{"threshold": threshold, "cipher_before_threshold": cipherFirst, "packets_per_stage": k, "sizes": sizes, "ids": ids, "read_plan": plan}
+		return map[string]any{"threshold": threshold, "cipher_before_threshold": cipherFirst, "packets_per_stage": k, "sizes": sizes, "ids": ids, "read_plan": plan, "one_cipher_block_per_end": oneBlock}
 	}
 	apply := func(conn *mcnet.Conn, stage int) { // called before the packets of stage 1 and 2
 		if stage == cipherFrom {
-			installCipher(conn, secret)
+			installCipher(conn, secret, oneBlock)
 		} else {
 			conn.SetThreshold(threshold)
 		}
@@ -165,7 +171,12 @@ func (rc *recConn) Write(p []byte) (int, error) {
 // peer's, so every Conn reads and writes at once, as the bot's and the server's connections do. No clock is involved:
 // once both writers have returned every byte has been handed to a Read, so the pipe is closed and a reader that still
 // waits for input gets an error (and has lost or miscounted bytes).
-func checkConnDuplex(c *vm.Ctx, r *vm.Rand) {
+//
+// One session in four runs over loopback TCP instead, with the connections made the way a program makes them: the
+// server's by (Listener).Accept - a Conn VALUE built from a struct literal of its own -, the client's by DialMC. There
+// the kernel chooses the fragmentation; when both writers have returned each socket's write side is shut down, so a
+// reader that has not got everything meets the end of the stream instead of waiting.
+func checkConnDuplex(c *vm.Ctx, r *vm.Rand, tcp *loopback) {
 	secret := ivSlice(c, r)
 	threshold := []int{-1, 0, 64, 256}[r.Intn(4)]
 	var lists [2][]pkt // [0]: a -> b, [1]: b -> a
@@ -174,23 +185,43 @@ func checkConnDuplex(c *vm.Ctx, r *vm.Rand) {
 		lists[d], sizes[d], _ = genPkts(r, threshold, r.Range(1, 40), false)
 	}
 	cipherFirst := [2]bool{r.Bool(), r.Bool()}
+	oneBlock := [2]bool{r.Bool(), r.Bool()}
+	leaveDefault := [2]bool{r.Bool(), r.Bool()} // without compression: SetThreshold(-1), or the setting a new Conn has
+	overTCP := tcp != nil && (r.Intn(4) == 0 || threshold < 0 && r.Bool()) // more often where the constructor's own threshold may stay in force
 	wit := func() any {
-		return map[string]any{"threshold": threshold, "sizes_a_to_b": sizes[0], "sizes_b_to_a": sizes[1], "end_sets_cipher_first": cipherFirst}
+		return map[string]any{"threshold": threshold, "sizes_a_to_b": sizes[0], "sizes_b_to_a": sizes[1], "end_sets_cipher_first": cipherFirst, "end_uses_one_cipher_block": oneBlock, "end_never_sets_negative_threshold": leaveDefault, "loopback_tcp_ListenMC_DialMC": overTCP}
 	}
-	pa, pb := net.Pipe()
-	raw := [2]*recConn{{Conn: pa}, {Conn: pb}}
 	var conns [2]*mcnet.Conn
-	for e := range conns {
-		conns[e] = mcnet.WrapConn(raw[e])
-		if cipherFirst[e] {
-			installCipher(conns[e], secret)
-			conns[e].SetThreshold(threshold)
-		} else {
-			conns[e].SetThreshold(threshold)
-			installCipher(conns[e], secret)
+	var socks [2]net.Conn // what each Conn sits on (for draining and closing)
+	var raw [2]*recConn   // pipe only: what each end wrote
+	if overTCP {
+		var accepted mcnet.Conn
+		var err error
+		conns[0], accepted, err = tcp.pair()
+		if err != nil {
+			c.Inconclusive("C10: loopback TCP connection could not be made: " + err.Error())
+			return
+		}
+		conns[1] = &accepted
+		socks = [2]net.Conn{conns[0].Socket, conns[1].Socket}
+	} else {
+		pa, pb := net.Pipe()
+		raw = [2]*recConn{{Conn: pa}, {Conn: pb}}
+		for e := range conns {
+			conns[e] = mcnet.WrapConn(raw[e])
+			socks[e] = raw[e].Conn
 		}
 	}
-	c.Eval(vm.Hash64(secret, []byte(fmt.Sprint("duplex", threshold, sizes))), true)
+	for e := range conns {
+		if cipherFirst[e] {
+			installCipher(conns[e], secret, oneBlock[e])
+			setThreshold(conns[e], threshold, leaveDefault[e])
+		} else {
+			setThreshold(conns[e], threshold, leaveDefault[e])
+			installCipher(conns[e], secret, oneBlock[e])
+		}
+	}
+	c.Eval(vm.Hash64(secret, []byte(fmt.Sprint("duplex", threshold, sizes, overTCP))), true)
 	type got struct {
 		id   int32
 		data []byte
@@ -227,14 +258,24 @@ func checkConnDuplex(c *vm.Ctx, r *vm.Rand) {
 				}
 			})
 			if len(received[d]) < len(lists[d]) {
-				io.Copy(io.Discard, raw[1-d].Conn) // let the peer's writer finish whatever happened here
+				io.Copy(io.Discard, socks[1-d]) // let the peer's writer finish whatever happened here
 			}
 		}()
 	}
 	writers.Wait()
-	pa.Close()
-	pb.Close()
+	for e := range socks {
+		if t, ok := socks[e].(*net.TCPConn); ok {
+			t.CloseWrite() // everything written stays readable; after it the peer's reader meets the end of the stream
+		} else {
+			socks[e].Close()
+		}
+	}
 	readers.Wait()
+	defer func() {
+		for e := range conns {
+			conns[e].Close()
+		}
+	}()
 	for d := 0; d < 2; d++ {
 		dir := []string{"a->b", "b->a"}[d]
 		if len(received[d]) < len(lists[d]) {
@@ -246,6 +287,9 @@ func checkConnDuplex(c *vm.Ctx, r *vm.Rand) {
 				c.Violation("conn-duplex/packet-altered", fmt.Sprintf("%s: packet %d arrived as id %d / %d bytes, sent id %d / %d bytes", dir, i, g.id, len(g.data), p.id, len(p.data)), wit())
 				return
 			}
+		}
+		if raw[d] == nil {
+			continue
 		}
 		// what this direction's writer put on the pipe, read by the reference
 		blk, _ := aes.NewCipher(append([]byte{}, secret...))
@@ -281,4 +325,21 @@ func checkConnDuplex(c *vm.Ctx, r *vm.Rand) {
 		}
 	}
 	c.Cover("conn.duplex.both-directions-at-once")
+	if overTCP {
+		c.Cover("conn.duplex.tcp.Accept-and-DialMC")
+	}
+	if oneBlock[0] || oneBlock[1] {
+		c.Cover("conn.duplex.one-block-for-both-directions")
+	}
+	if threshold < 0 {
+		for e, kind := range []string{"DialMC", "Accept"} {
+			if leaveDefault[e] {
+				if overTCP {
+					c.Cover("conn.duplex.tcp.threshold-never-set." + kind)
+				} else {
+					c.Cover("conn.duplex.threshold-never-set")
+				}
+			}
+		}
+	}
 }
